@@ -41,6 +41,8 @@ inductive Cls
   | docEval       -- the single doc-derived `eval(typ)`; safe by `eval_arg_safe`
   | outputWrite   -- write / create of the explicitly named output file or directory
   | readOnly      -- `open(filename, mode)` helper whose every caller leaves the default read mode
+  | finding       -- a reviewed site that DOES violate the property on the unchanged tree: recorded in known_findings.d/C17.txt,
+                  -- its witness is replayed on the real code by every run (`findings_registered` lists them)
 deriving DecidableEq, Repr
 
 /-- digest → reviewed class (digests as printed in `Gen/EvalSites.lean`) -/
@@ -71,6 +73,25 @@ def registry : List (Nat × Cls × String) := [
   (1021481801790532794, .optIn,       "__main__.main: gen(**args_dict) — the CLI dispatch of `gen` (reaches get_module only as registered above)"),
   (964822969558659248,  .optIn,       "sync_properties.sync_properties: sync_property(input_eval, …) — evaluates only under --input-eval (registered above)"),
   (82060762181923770,   .optIn,       "__main__.main: sync_properties(**args_dict) — the CLI dispatch of `sync_properties`"),
+  -- importlib.util.find_spec (for a dotted name it imports — executes — the parent package) and its wrappers
+  (717301375868791504,  .optIn,       "pure_utils.find_module_filepath: find_spec(module_name) — resolves a module *named as a module* (gen module-path mode, exmod); see the call sites below"),
+  (57459152152917581,   .optIn,       "pure_utils.filename_from_mod_or_filename: find_spec(x) only in the else-arm of `path.sep in x or path.isfile(x)`: an existing file or a path is never resolved as a module"),
+  (582392089731177874,  .optIn,       "gen_routes.gen_routes: filename_from_mod_or_filename(model_path) — --model-path 'module resolution (foo.models) or filepath'"),
+  (354139020848589896,  .optIn,       "gen_routes.upsert_routes: filename_from_mod_or_filename(routes_path) — --routes-path, same"),
+  (35738991267558888,   .optIn,       "__main__.main: gen_routes(model_path=args.model_path, …) — CLI dispatch"),
+  (450983474936800766,  .optIn,       "__main__.main: upsert_routes(routes_path=…) — CLI dispatch"),
+  (336262508014380080,  .optIn,       "gen_utils.get_input_mapping_from_path: find_module_filepath(module_path, symbol_name) — gen with --input-mapping given as module.symbol"),
+  (625200606312811208,  .optIn,       "ast_utils.module_to_all: find_module_filepath(x) only under `if not path.exists(x)` (exmod --extra-module names a module)"),
+  (600645667346039456,  .optIn,       "exmod.exmod: module_to_all(extra_modules) — exmod imports the module it exposes by design (C20)"),
+  (699074200077666725,  .optIn,       "exmod._create_sqlalchemy_mod: module_to_all(connection_filepath) — a file exmod has just written (path exists)"),
+  (139870955335648787,  .optIn,       "exmod._create_sqlalchemy_mod: module_to_all(create_table_filepath) — a file exmod has just written (path exists)"),
+  (1044307875414897759, .optIn,       "exmod.exmod: find_module_filepath(module_root | module_name) — the module named by --module"),
+  (357265410385044479,  .optIn,       "exmod.exmod_single_folder: find_module_filepath(*import_from.module.rsplit('.', 1)) — names from the exposed module's own imports; exmod is outside C17's quantifier (it imports by design)"),
+  (721765333062963298,  .optIn,       "exmod_utils.get_module_contents: find_module_filepath(module_name, submodule_name) — exmod"),
+  (732627232642645829,  .optIn,       "exmod.exmod: partial(exmod, …) — recursion over the exposed hierarchy"),
+  (905693075563380306,  .optIn,       "__main__.main: exmod(**args_dict) — CLI dispatch"),
+  (983159277595413792,  .finding,     "sqlalchemy emit_utils.rewrite_fk: find_module_filepath(symbol_to_module[name], name) — the module of a `from pkg.mod import T` statement OF THE ANALYSED FILE goes to find_spec, which imports `pkg` (gen --phase 2): finding C17-gen-phase2-imports-parent-package"),
+  (1056279844659529245, .finding,     "sqlalchemy emit_utils.update_fk_for_file: rewrite_fk(symbol_to_module, node) — the same chain"),
   -- writes
   (1140940052290356636, .outputWrite, "doctrans: open(filename, 'wt') — the file being converted, edited in place"),
   (541406605064532682,  .outputWrite, "emit/file.py file(node, filename, mode): open(filename, mode) — the named output; callers pass 'wt' / 'a'"),
@@ -101,6 +122,7 @@ def allowed : Nat → Cls → Bool
   | 6, .outputWrite => true                              -- fs-write
   | 7, .outputWrite => true | 7, .readOnly => true       -- fs-write with a non-constant mode
   | 10, .constImport => true | 10, .optIn => true        -- call of a project wrapper around a dynamic import
+  | 10, .finding => true                                 --   … or a registered violation (known finding, replayed every run)
   | 11, .optIn => true                                   -- call of a project wrapper around eval / exec / compile
   | _, _ => false
 
@@ -123,6 +145,12 @@ theorem registry_all_present :
 theorem doc_eval_unique :
     (Gen.EvalSites.sites.filter (fun s => lookup s.1 == some .docEval)).length = 1 ∧
     (Gen.EvalSites.sites.filter (fun s => s.2 == 4)).length = 5 := by decide
+
+/-- **Negative part, kept visible:** exactly these two registered sites (one call chain) violate the property on the unchanged
+    tree — a module name read from the analysed file's own `from pkg.mod import T` reaches `importlib.util.find_spec`, which imports
+    `pkg`.  The concrete witness is replayed on the real code by every run (known finding C17-gen-phase2-imports-parent-package). -/
+theorem findings_registered :
+    (registry.filter (fun r => r.2.1 == Cls.finding)).map (·.1) = [983159277595413792, 1056279844659529245] := by decide
 
 /-- no site of the table is a process / network / unpickling / unsafe-YAML / destructive one -/
 theorem no_unsafe_sites : Gen.EvalSites.sites.all (fun s => s.2 != 8 && s.2 != 9 && s.2 != 12) = true := by decide
